@@ -61,6 +61,10 @@ type History struct {
 	Times bool `json:"times"`
 	Mono  bool `json:"mono"` // published times never decrease with offset
 	Ops   []Op `json:"ops"`
+	// spec-generated histories: observe only after the last step (every prefix is a case of its own)
+	FinalObs bool    `json:"finalobs,omitempty"`
+	ExpBases []int64 `json:"expbases,omitempty"` // segment bases the implementation-shaped model predicts
+	ExpNext  int64   `json:"expnext,omitempty"`
 }
 
 // Observation profile: which sweeps the executor records after every step.
@@ -467,6 +471,14 @@ func noBackoff(context.Context) error { return nil }
 func (x *Exec) observe() {
 	if x.l == nil {
 		return
+	}
+	if x.h.FinalObs {
+		// only after the last operation that leaves the log open
+		for j := x.opi + 1; j < len(x.h.Ops); j++ {
+			if x.h.Ops[j].Op != "close" {
+				return
+			}
+		}
 	}
 	next, nerr := x.l.NextOffset()
 	if x.obs.Next {
